@@ -368,6 +368,59 @@ fn answer(a: &[&str]) -> String {
             };
             format!("N {} {} {}", bw, if out.is_empty() { "-".to_string() } else { hex(&out) }, if raw.is_empty() { "-".to_string() } else { hex(&raw) })
         }
+        // c04_dates codec VR constructor y:mo:d:h:mi:s:f:fp:off ... -> "N <bytes_written> <hex> <text length by to_encoded>" | "REFUSED" (constructor error)
+        "c04_dates" => {
+            use dicom_core::header::{DataElementHeader, Length};
+            use dicom_core::value::{DicomDate, DicomDateTime, DicomTime};
+            use dicom_core::VR;
+            use dicom_encoding::text::SpecificCharacterSet;
+            use dicom_parser::stateful::encode::StatefulEncoder;
+            use std::str::FromStr;
+            let vr = VR::from_str(a[2]).unwrap();
+            let cname = a[3];
+            let mut dates = Vec::new(); let mut times = Vec::new(); let mut dts = Vec::new();
+            let mut text_len = 0usize;
+            for (k, w) in a[4..].iter().enumerate() {
+                let f: Vec<i64> = w.split(':').map(|x| x.parse().unwrap()).collect();
+                let (y, mo, d, h, mi, s, fr, _fp, off) = (f[0] as u16, f[1] as u8, f[2] as u8, f[3] as u8, f[4] as u8, f[5] as u8, f[6] as u32, f[7] as u8, f[8] as i32);
+                let mk_date = |name: &str| match name { "from_y" => DicomDate::from_y(y), "from_ym" => DicomDate::from_ym(y, mo), _ => DicomDate::from_ymd(y, mo, d) };
+                let mk_time = |name: &str| match name {
+                    "from_h" => DicomTime::from_h(h), "from_hm" => DicomTime::from_hm(h, mi), "from_hms" => DicomTime::from_hms(h, mi, s),
+                    "from_hms_milli" => DicomTime::from_hms_milli(h, mi, s, fr), _ => DicomTime::from_hms_micro(h, mi, s, fr),
+                };
+                if k > 0 { text_len += 1; }
+                match a[2] {
+                    "DA" => { match mk_date(cname) { Ok(v) => { text_len += v.to_encoded().len(); dates.push(v) } Err(_) => return "REFUSED".into() } }
+                    "TM" => { if cname == "from_hmsf" { return "REFUSED hmsf_is_private".into(); } match mk_time(cname) { Ok(v) => { text_len += v.to_encoded().len(); times.push(v) } Err(_) => return "REFUSED".into() } }
+                    _ => {
+                        let with_time = cname.contains("and_time");
+                        let dfn = if with_time { "from_ymd" } else { ["from_ymd", "from_ym", "from_y"][k % 3] };
+                        let date = match mk_date(dfn) { Ok(v) => v, Err(_) => return "REFUSED".into() };
+                        let off = match dicom_core::chrono::FixedOffset::east_opt(off) { Some(o) => o, None => return "REFUSED".into() };
+                        let v = if with_time {
+                            let t = match mk_time("from_hms_micro") { Ok(v) => v, Err(_) => return "REFUSED".into() };
+                            let r = if cname.contains("time_zone") { DicomDateTime::from_date_and_time_with_time_zone(date, t, off) } else { DicomDateTime::from_date_and_time(date, t) };
+                            match r { Ok(v) => v, Err(_) => return "REFUSED".into() }
+                        } else if cname.contains("time_zone") { DicomDateTime::from_date_with_time_zone(date, off) } else { DicomDateTime::from_date(date) };
+                        text_len += v.to_encoded().len(); dts.push(v)
+                    }
+                }
+            }
+            let value = match a[2] { "DA" => PrimitiveValue::Date(dates.into_iter().collect()), "TM" => PrimitiveValue::Time(times.into_iter().collect()), _ => PrimitiveValue::DateTime(dts.into_iter().collect()) };
+            let de = DataElementHeader::new(Tag(0x0008, 0x002A), vr, Length(0));
+            let mut out: Vec<u8> = Vec::new();
+            macro_rules! go { ($enc:expr) => {{
+                let mut se = StatefulEncoder::new(&mut out, dicom_encoding::encode::EncoderFor::new($enc), SpecificCharacterSet::default());
+                if se.encode_primitive_element(&de, &value).is_err() { return "BAD encode_error".into(); }
+                se.bytes_written()
+            }}}
+            let bw = match a[1] {
+                "ele" => go!(dicom_encoding::encode::explicit_le::ExplicitVRLittleEndianEncoder::default()),
+                "ile" => go!(dicom_encoding::encode::implicit_le::ImplicitVRLittleEndianEncoder::default()),
+                _ => go!(dicom_encoding::encode::explicit_be::ExplicitVRBigEndianEncoder::default()),
+            };
+            format!("N {} {} {}", bw, hex(&out), text_len)
+        }
         // c04_tokens codec default|nochange token... -> "N - <hex of the stream>"
         //   tokens: S:gggg,eeee,len  I:len  i  s  P  E:gggg,eeee,US,v,v..  E:gggg,eeee,VR,texthex  F:hex  O:n,n
         "c04_tokens" => {
